@@ -124,7 +124,7 @@ partial def pS : P S
   | "(" :: "obj" :: m :: ts => do
       let m ← pMode m
       let (ca, ts) ← pSOpt ts
-      let (part, ts) ← (match ts with | "p" :: ts => some (true, ts) | "-" :: ts => some (false, ts) | _ => none)
+      let (part, ts) ← (match ts with | "p" :: ts => some (true, ts) | "P" :: ts => some (true, ts) | "-" :: ts => some (false, ts) | _ => none)
       let (_, ts) ← expect "(" ts
       let (_, ts) ← expect "cks" ts
       let (cs, ts) ← pMany pSzCk ts
@@ -196,6 +196,31 @@ partial def pJField : P (Str × Json)
   | _ => none
 end
 
+/-- `( part STR* )` = Partial(keys…), `( req STR* )` = Required(keys…) -/
+def pObjOp : P ObjOp
+  | "(" :: "part" :: ts => do
+      let (ks, ts) ← pMany (fun ts => match ts with | t :: ts => (decStr t).map (·, ts) | [] => none) ts
+      pure (.part ks, ts)
+  | "(" :: "req" :: ts => do
+      let (ks, ts) ← pMany (fun ts => match ts with | t :: ts => (decStr t).map (·, ts) | [] => none) ts
+      pure (.req ks, ts)
+  | _ => none
+
+/-- `( objf MODE CATCH ( ops OP* ) ( cks SZ* ) ( STR S )* )`: an object with a Partial / Required call history.
+    `objf` / `p` are written by the harness on a tree whose converter ignores the object's state (before the fix
+    C07-object-optionality, probed), `objF` / `P` on a tree whose converter asks the object. -/
+def pObjF (ts : List String) : Option (X × List String) := do
+  let (m, ts) ← (match ts with | m :: ts => (pMode m).map (·, ts) | [] => none)
+  let (ca, ts) ← pSOpt ts
+  let (_, ts) ← expect "(" ts
+  let (_, ts) ← expect "ops" ts
+  let (ops, ts) ← pMany pObjOp ts
+  let (_, ts) ← expect "(" ts
+  let (_, ts) ← expect "cks" ts
+  let (cs, ts) ← pMany pSzCk ts
+  let (fs, ts) ← pMany pField ts
+  pure (.objF m ca ops cs (shapeOf fs), ts)
+
 /-- `( lazy FLAGS X )` with FLAGS ∈ {--, o-, -n, on} (Optional / Nilable applied to the lazy schema), else a base schema. -/
 partial def pX : P X
   | "(" :: "lazy" :: fl :: ts => do
@@ -205,6 +230,8 @@ partial def pX : P X
       let (x, ts) ← pX ts
       let (_, ts) ← expect ")" ts
       pure (.lazy o n x, ts)
+  | "(" :: "objf" :: ts => pObjF ts
+  | "(" :: "objF" :: ts => pObjF ts
   | ts => do let (s, ts) ← pS ts; pure (.base s, ts)
 
 /-! ### rendering the model's document as canonical JSON (sorted keys, exact numbers) -/
@@ -326,66 +353,66 @@ def b2s (b : Bool) : String := if b then "1" else "0"
 def ifNot (c : Bool) (r : String) : List String := if c then [] else [r]
 
 mutual
-partial def reasons (top spine : Bool) : S → List String
+partial def reasons (lg top spine : Bool) : S → List String
   | .str cks => ifNot (strLenOK cks) "str-length-overwrites" ++ ifNot (noTrim cks) "str-trim-before-check"
   | .int k cks => ifNot (intKindOK top k cks) "int-kind-range-missing" ++ numReasons cks
   | .flt cks => numReasons cks
   | .enum vs => ifNot (!vs.isEmpty) "empty-enum"
   | .lit vs => ifNot (litHomog vs) "literal-mixed-kinds"
-  | .opt s => ifNot s.docNullable "optional-accepts-null" ++ reasons top false s
-  | .nul s => reasons top false s
+  | .opt s => ifNot s.docNullable "optional-accepts-null" ++ reasons lg top false s
+  | .nul s => reasons lg top false s
   | .obj mode ca part cks shape =>
       (match mode with | .strip => ifNot spine "nested-strip-object" | _ => [])
-      ++ ifNot (!part) "partial-keeps-required"
+      ++ ifNot (!(lg && part)) "partial-keeps-required"
       ++ (match mode, ca with | .strict, .some _ => ["strict-ignores-catchall"] | _, _ => [])
       ++ ifNot (szSimple cks) "size-check-overwrites"
       ++ (match mode, ca with | .strip, .some _ => ifNot cks.isEmpty "strip-size-after-strip" | _, _ => [])
-      ++ reasonsCa ca ++ reasonsShape shape
-  | .slice e cks => ifNot (szSimple cks) "size-check-overwrites" ++ reasons false false e
+      ++ reasonsCa lg ca ++ reasonsShape lg shape
+  | .slice e cks => ifNot (szSimple cks) "size-check-overwrites" ++ reasons lg false false e
   | .arr rest cks items =>
       ifNot cks.isEmpty "array-length-keyword"
       ++ (match rest with
           | .none => ifNot (items.length != 1) "array-single-item"
           | .some _ => ifNot (items.length == 0) "rest-without-min-items")
-      ++ reasonsCa rest ++ reasonsList items
+      ++ reasonsCa lg rest ++ reasonsList lg items
   | .tup rest cks items =>
       ifNot cks.isEmpty "array-length-keyword"
       ++ (match rest with
           | .none => []
           | .some _ => ifNot (reqCount items == 0) "rest-without-min-items")
-      ++ reasonsCa rest ++ reasonsList items
+      ++ reasonsCa lg rest ++ reasonsList lg items
   | .record key val cks =>
       (match key with
        | .enum _ => ["record-enum-exhaustive"]
        | .str _ => []
        | _ => ["record-key-kind"])
-      ++ reasons false false key ++ ifNot (szSimple cks) "size-check-overwrites" ++ reasons false false val
-  | .union ms => reasonsMembers ms
-  | .xor ms => reasonsMembers ms
+      ++ reasons lg false false key ++ ifNot (szSimple cks) "size-check-overwrites" ++ reasons lg false false val
+  | .union ms => reasonsMembers lg ms
+  | .xor ms => reasonsMembers lg ms
   | .and l r =>
       ifNot (!l.acceptsNull && !r.acceptsNull) "union-nil-member"
       ++ ifNot (!l.isStrictObj && !r.isStrictObj) "intersection-strict-objects"
-      ++ reasons false false l ++ reasons false false r
+      ++ reasons lg false false l ++ reasons lg false false r
   | _ => []
 
 partial def numReasons (cks : List NumCk) : List String :=
   ifNot (numFoldOK {} cks) "num-bound-merge"
 
-partial def reasonsCa : SOpt → List String
+partial def reasonsCa (lg : Bool) : SOpt → List String
   | .none => []
-  | .some s => reasons false false s
+  | .some s => reasons lg false false s
 
-partial def reasonsList : SList → List String
+partial def reasonsList (lg : Bool) : SList → List String
   | .nil => []
-  | .cons s ss => reasons false false s ++ reasonsList ss
+  | .cons s ss => reasons lg false false s ++ reasonsList lg ss
 
-partial def reasonsMembers : SList → List String
+partial def reasonsMembers (lg : Bool) : SList → List String
   | .nil => []
-  | .cons s ss => ifNot (!s.acceptsNull) "union-nil-member" ++ reasons false false s ++ reasonsMembers ss
+  | .cons s ss => ifNot (!s.acceptsNull) "union-nil-member" ++ reasons lg false false s ++ reasonsMembers lg ss
 
-partial def reasonsShape : Shape → List String
+partial def reasonsShape (lg : Bool) : Shape → List String
   | .nil => []
-  | .cons _ s rest => reasons false false s ++ reasonsShape rest
+  | .cons _ s rest => reasons lg false false s ++ reasonsShape lg rest
 end
 
 mutual
@@ -453,62 +480,69 @@ def docLine (d : Option JS) : String :=
   | some j => b2s (wfJS j) ++ " " ++ renderJS j
   | none => "error"
 
-def instLine (s : S) (x : Json) : String :=
-        let j := toDoc s
-        let p := accepts s x
-        let rs := dedup (reasons true true s ++ instReasons x)
-        -- self-check: the itemised reasons are empty exactly when the theorem's hypotheses hold
-        let coherent := (rs.isEmpty == (reprTop true s && instOK x))
-        let rs := rs ++ ifNot (!andStrictNested s) "intersection-strict-nested"
-        b2s p ++ " " ++ (if p then b2s (jsValid j (out s x)) else "-") ++ " " ++ b2s (jsValid j x)
-          ++ "\t" ++ (if coherent then "" else "INCOHERENT,") ++ ",".intercalate rs
-
-/-- why a lazy case lies outside `reprX` (class names as in known-findings.txt). -/
-partial def xReasons : X → List String
-  | .base s => reasons false false s
+/-- why a case lies outside `reprXTop` (class names as in known-findings.txt).  `lg` = the tree's converter ignores
+    the objects' Partial / Required state (before the fix C07-object-optionality). -/
+partial def xReasons (lg top : Bool) : X → List String
+  | .base s => reasons lg top top s
   | .lazy o n x =>
       ifNot x.consults "lazy-typed-inner-unvalidated"
       ++ ifNot (if n then true else !o && !acceptsX x .null) "lazy-null"
-      ++ xReasons x
+      ++ xReasons lg false x
+  | .objF mode ca ops cks shape =>
+      let rq := reqKeysG ((objSt shape.keys ops).fieldOpt) shape
+      (match mode with | .strip => ifNot top "nested-strip-object" | _ => [])
+      ++ ifNot (!(lg && (requiredKeys shape).any (fun k => !rq.contains k))) "partial-keeps-required"
+      ++ ifNot (!(lg && rq.any (fun k => !(requiredKeys shape).contains k))) "required-keeps-optional"
+      ++ (match mode, ca with | .strict, .some _ => ["strict-ignores-catchall"] | _, _ => [])
+      ++ ifNot (szSimple cks) "size-check-overwrites"
+      ++ (match mode, ca with | .strip, .some _ => ifNot cks.isEmpty "strip-size-after-strip" | _, _ => [])
+      ++ reasonsCa lg ca ++ reasonsShape lg shape
 
-def instLineX : X → Json → String
-  | .base s, v => instLine s v
-  | x, v =>
-      let j := toDocX x
-      let p := acceptsX x v
-      let rs := dedup (xReasons x ++ instReasons v)
-      let coherent := (rs.isEmpty == (reprX true x && instOK v))
-      b2s p ++ " " ++ (if p then b2s (jsValid j (outX x v)) else "-") ++ " " ++ b2s (jsValid j v)
-        ++ "\t" ++ (if coherent then "" else "INCOHERENT,") ++ ",".intercalate rs
+/-- the document of the tree under test: the fixed converter's, or the one that ignores the objects' state. -/
+def docX (lg : Bool) (x : X) : JS := if lg then toDocLegacy x else toDocX x
 
-/-- one call on a (possibly lazy) schema: a base schema goes through `convertO`; for a lazy schema the same rule
-    (Cycles:"throw" on an instance met twice is an error, no other option changes the inlined document). -/
-def convertX (o : Opts) (dup : Bool) : X → Option JS
-  | .base s => convertO o dup s
-  | x => if o.cyclesThrow && dup then none else some (toDocX x)
+def instLineX (lg : Bool) (x : X) (v : Json) : String :=
+  let j := docX lg x
+  let p := acceptsX x v
+  let rs := dedup (xReasons lg true x ++ instReasons v)
+  -- self-check: the itemised reasons are empty exactly when the theorems' hypotheses hold (`c07_x_sound` / `_complete`;
+  -- on a legacy tree `c07_legacy_sound` / `_complete`)
+  let hyp := reprXTop x && (!lg || legacyOK x) && instOK v
+  let coherent := rs.isEmpty == hyp
+  let rs := rs ++ (match x with | .base s => ifNot (!andStrictNested s) "intersection-strict-nested" | _ => [])
+  b2s p ++ " " ++ (if p then b2s (jsValid j (outX x v)) else "-") ++ " " ++ b2s (jsValid j v)
+    ++ "\t" ++ (if coherent then "" else "INCOHERENT,") ++ ",".intercalate rs
+
+/-- one call on a (possibly lazy) schema: Cycles:"throw" on an instance met twice is an error, no other option changes
+    the inlined document (`convertO` for base schemas). -/
+def convertX (lg : Bool) (o : Opts) (dup : Bool) (x : X) : Option JS :=
+  if o.cyclesThrow && dup then none else some (docX lg x)
+
+/-- the harness writes `p` / `objf` on a tree whose converter ignores the objects' Partial / Required state. -/
+def isLegacy (ts : List String) : Bool := ts.contains "p" || ts.contains "objf"
 
 def handle : List String → String
   | "doc" :: ts =>
     match pX ts with
-    | some (x, []) => docLine (convertX {} false x)
+    | some (x, []) => docLine (convertX (isLegacy ts) {} false x)
     | _ => "bad-op"
   | "inst" :: ts =>
     match pX ts with
-    | some (x, ts) =>
-      match pJ ts with
-      | some (v, []) => instLineX x v
+    | some (x, rest) =>
+      match pJ rest with
+      | some (v, []) => instLineX (isLegacy ts) x v
       | _ => "bad-op"
     | none => "bad-op"
   -- the k-th call of a history: `runHistory` gives every call the document `convertO` gives it alone
   | "hdoc" :: _k :: o :: ts =>
     match pOpts o, pX ts with
-    | some (o, dup), some (x, []) => docLine (convertX o dup x)
+    | some (o, dup), some (x, []) => docLine (convertX (isLegacy ts) o dup x)
     | _, _ => "bad-op"
   | "hinst" :: _k :: o :: ts =>
     match pOpts o, pX ts with
-    | some (o, dup), some (x, ts) =>
-      match pJ ts, convertX o dup x with
-      | some (v, []), some _ => instLineX x v
+    | some (o, dup), some (x, rest) =>
+      match pJ rest, convertX (isLegacy ts) o dup x with
+      | some (v, []), some _ => instLineX (isLegacy ts) x v
       | _, _ => "bad-op"
     | _, _ => "bad-op"
   | _ => "bad-op"
